@@ -88,6 +88,8 @@ type world struct {
 	stuck      bool
 	epochCalls []epochCall
 	lastGood   *shuffleCall
+	history    []*shuffleCall         // first successful coordinator-side UpdateNodeLists call of every epoch, ascending
+	veteran    sharding.NodesShuffler // one shuffler instance that serves every veteran replay of the run
 	prevShard  map[string]uint32
 
 	deferred []deferredViolation
@@ -626,6 +628,9 @@ func (w *world) deliverPrepare(n *node, seed int64, fault string, faultAt int) {
 		if sc.err == nil {
 			computed = true
 			w.lastGood = sc
+			if len(w.history) == 0 || w.history[len(w.history)-1].epoch < sc.epoch {
+				w.history = append(w.history, sc)
+			}
 		} else {
 			c.Probe("shuffler-returned-error")
 		}
